@@ -1,6 +1,7 @@
 import OdcGeo.Model.C06
 import OdcGeo.Model.C06Dask
 import OdcGeo.Model.C06Ops
+import OdcGeo.Model.C06Fix
 namespace OdcGeo.C06.Drv
 open OdcGeo OdcGeo.IO OdcGeo.C06
 
@@ -121,6 +122,25 @@ def run (args : List String) : Option String :=
       match flushRhsRet (if hasW then some W else none) root (ftrBytes extra) with
       | .error e => pure e.toStr
       | .ok (c, ws, n) => pure s!"ret={n} writes={fmtList fmtPart ws} after[{fmtChunk c}]"
+  | ["fintwice", minWrite, minPart, maxPart, spill, wpc, hdr, ftr, tree] => do
+    -- the finaliser task executed twice on the same root object
+    let minWrite ← parseNat? minWrite; let minPart ← parseNat? minPart; let maxPart ← parseNat? maxPart
+    let spill ← parseNat? spill; let wpc ← parseNat? wpc
+    let hdr ← parseOpt? parseNat? hdr; let ftr ← parseOpt? parseNat? ftr
+    let (t, _, _) ← parseTree1 tree 0 0
+    let W : Writer := ⟨minWrite, minPart, maxPart⟩
+    let mkH := hdr.map (fun n => fun (_ : List (Nat × Int)) => hdrBytes n)
+    let mkF := ftr.map (fun n => fun (_ : List (Nat × Int)) => ftrBytes n)
+    let fmtFP := fun (p : FinPost Nat) =>
+      let fin := match p.out with | .written _ f => fmtIds f | .chunk _ => "-"
+      s!"writes={fmtList fmtPart p.writes} final={fin} root[{fmtChunk p.rootAfter}]"
+    match eval ⟨some W, spill, wpc, ftr.isNone⟩ t.leaves t 0 with
+    | .error e => pure ("EVAL-" ++ e.toStr)
+    | .ok (root, _) =>
+      match finalizerTwice (some W) root mkH mkF with
+      | .error e => pure ("FIRST-" ++ e.toStr)
+      | .ok (p1, .error e) => pure s!"first: {fmtFP p1} second: {e.toStr}"
+      | .ok (p1, .ok p2) => pure s!"first: {fmtFP p1} second: {fmtFP p2}"
   | ["rerun1", minWrite, minPart, maxPart, spill, wpc, markFinal, treeL, treeR] => do
     -- one merge task, result and writer calls only (for code that does not touch its inputs)
     let minWrite ← parseNat? minWrite; let minPart ← parseNat? minPart; let maxPart ← parseNat? maxPart
@@ -170,6 +190,30 @@ def run (args : List String) : Option String :=
       pure (fmtBool (ta.2 == tb.2 && ta.1.1 == tb.1.1 && ta.1.2.1 == tb.1.2.1 && ta.1.2.2.1 == tb.1.2.2.1 && ta.1.2.2.2.1 == tb.1.2.2.2.1 &&
         ta.1.2.2.2.2.1 == tb.1.2.2.2.2.1 && ta.1.2.2.2.2.2.1 == tb.1.2.2.2.2.2.1 && ta.1.2.2.2.2.2.2 == tb.1.2.2.2.2.2.2))
     | _, _ => pure "EVAL-ERR"
+  | ["runR", hasW, minWrite, minPart, maxPart, spill, wpc, hdr, ftr, tree] => do
+    -- `run` for a tree whose maybe_write asserts the part number range (branch fix3-C06)
+    let hasW ← parseBool? hasW
+    let minWrite ← parseNat? minWrite; let minPart ← parseNat? minPart; let maxPart ← parseNat? maxPart
+    let spill ← parseNat? spill; let wpc ← parseNat? wpc
+    let hdr ← parseOpt? parseNat? hdr; let ftr ← parseOpt? parseNat? ftr
+    let (t, rest, _, _) ← parseTree (tree.splitOn ";") 0 0
+    if rest ≠ [] then none
+    let w : Option Writer := if hasW then some ⟨minWrite, minPart, maxPart⟩ else none
+    let mkH := hdr.map (fun n => fun (_ : List (Nat × Int)) => hdrBytes n)
+    let mkF := ftr.map (fun n => fun (_ : List (Nat × Int)) => ftrBytes n)
+    pure (fmtRun (runR ⟨w, spill, wpc, ftr.isNone⟩ t mkH mkF))
+  | ["mpuwR", hasW, minWrite, minPart, maxPart, spill, wpc, hdr, ftr, bags] => do
+    let hasW ← parseBool? hasW
+    let minWrite ← parseNat? minWrite; let minPart ← parseNat? minPart; let maxPart ← parseNat? maxPart
+    let spill ← parseNat? spill; let wpc ← parseNat? wpc
+    let hdr ← parseOpt? parseNat? hdr; let ftr ← parseOpt? parseNat? ftr
+    let bags ← parseBags bags
+    let w : Option Writer := if hasW then some ⟨minWrite, minPart, maxPart⟩ else none
+    let mkH := hdr.map (fun n => fun (_ : List (Nat × Int)) => hdrBytes n)
+    let mkF := ftr.map (fun n => fun (_ : List (Nat × Int)) => ftrBytes n)
+    match mpuWriteR w spill wpc bags mkH mkF with
+    | none => pure "NONE"
+    | some r => pure (fmtRun r)
   | ["shape", split, nparts] => do
     -- the merge tree `from_dask_bag(split_every=split)` per bag + collate builds for bags with these partition counts
     let split ← parseNat? split
